@@ -26,6 +26,8 @@ ASSUMPTIONS = ["exec stub: student code = arbitrary string written to sys.stdout
                "Sandbox._start_patches/_stop_patches executed untraced (concrete mock.patch bookkeeping, no symbolic data)",
                "sandbox.result_proxy_class = None in history obligations (results are not the subject; the proxy class defeats tracing)"]
 
+CANARIES = {'harness/C15_io.py': 'stub_canary()'}   # harness file -> native call that must return True, else its stubs are dead
+
 
 def obligations(tier):
     obs = [
